@@ -243,7 +243,20 @@ impl Finds {
                     let cs = word_chars(&tok, wi).to_vec();
                     if cs.len() >= 3 && done_words.insert(s(&cs)) {
                         for sp in 1..cs.len() {
-                            let q = format!("{} {}", s(&cs[..sp]), s(&cs[sp..]));
+                            // the two parts, usually as typed so far; sometimes followed by a separator or by
+                            // another title word (then the second part is a finished word)
+                            let mut q = format!("{} {}", s(&cs[..sp]), s(&cs[sp..]));
+                            match cx.rng.below(6) {
+                                0 => {
+                                    q.push(' ');
+                                    cx.count("split followed by a separator");
+                                }
+                                1 => {
+                                    q.push('.');
+                                    cx.count("split followed by a separator");
+                                }
+                                _ => {}
+                            }
                             if !oracle::stable(lobj, &q, &[&cs[..sp], &cs[sp..]]) {
                                 cx.count("skipped_unstable");
                                 continue;
@@ -416,8 +429,8 @@ impl Prop for Finds {
         match self.0 {
             Which::Prefix => vec![("prefix len 1", 500, 5000), ("prefix len 2", 500, 5000), ("prefix len >3", 2000, 20000), ("word with stem < len", 200, 2000), ("function word", 20, 200), ("word > 20 letters", 20, 200), ("titles with more than 20 words", 100, 1000)],
             Which::Typo => vec![("substitution at first", 50, 500), ("insertion at first", 50, 500), ("deletion at first", 50, 500), ("transposition at first", 50, 500), ("transposition at last", 50, 500), ("len 5", 200, 2000), ("len >20", 100, 1000), ("titles with more than 20 words", 30, 300), ("exhaustive-letter edits", 30000, 250000), ("exhaustive-letter words that are function words", 150, 150)],
-            Which::Whole => vec![("whole title", 1000, 10000), ("first last", 300, 3000), ("last first", 300, 3000), ("title with function word", 50, 500), ("titles with more than 20 words", 200, 2000)],
-            Which::SplitJoin => vec![("split", 2000, 20000), ("split after first letter", 200, 2000), ("join", 100, 1000), ("join with 1-letter first word", 3, 30), ("titles with more than 20 words", 100, 1000)],
+            Which::Whole => vec![("whole title", 1000, 10000), ("first last", 300, 3000), ("last first", 300, 3000), ("title with function word", 50, 500), ("titles with more than 20 words", 200, 2000), ("catalogues searched while small, then grown and given limit = N", 6, 60)],
+            Which::SplitJoin => vec![("split", 2000, 20000), ("split after first letter", 200, 2000), ("join", 100, 1000), ("join with 1-letter first word", 3, 30), ("titles with more than 20 words", 100, 1000), ("split followed by a separator", 20000, 200000)],
         }
     }
     fn ratios(&self) -> Vec<(&'static str, &'static str, f64, f64)> {
@@ -524,9 +537,42 @@ impl Prop for Finds {
                 for (k, t) in targets.iter().enumerate() {
                     recs.insert((at + k * 37) % recs.len(), t.clone());
                 }
-                let st = St::build_sentinel(lang, &recs, recs.len());
+                // one title stored under many ids: every one of them ties on every count a candidate list could use
+                let dup_title = format!("{} {}", gen::rand_word(&mut cx.rng, &alpha, 4, 8), dom);
+                let dups = *cx.rng.pick(&[25usize, 130, 300]);
+                for j in 0..dups {
+                    let at = cx.rng.below(recs.len());
+                    recs.insert(at, (20_000 + j, dup_title.clone(), 7));
+                }
+                for _ in 0..4 {
+                    targets.push((20_000 + cx.rng.below(dups), dup_title.clone(), 7));
+                }
+                // half of the catalogues are built in one go; the others answer a search while they are small
+                // and have a small limit, then grow to full size and get limit = N (buffers or budgets sized at
+                // the first search would show)
+                let staged = idx % 2 == 1;
+                let st = if staged {
+                    let l1 = *cx.rng.pick(&[1usize, 2, 10]);
+                    let mut st = St::sentinel(lang, l1);
+                    let first = cx.rng.range(1, 5);
+                    for r in &recs[..first] {
+                        st.add(r);
+                    }
+                    cx.ctx(format!("big staged lang={} first search on {} records, limit {}", lang, first, l1));
+                    let _ = st.search(&dom);
+                    let _ = st.search(&recs[0].1);
+                    for r in &recs[first..] {
+                        st.add(r);
+                    }
+                    st.store.limit = recs.len();
+                    cx.count("catalogues searched while small, then grown and given limit = N");
+                    st
+                } else {
+                    St::build_sentinel(lang, &recs, recs.len())
+                };
+                let how = if staged { "searched once while it held 1-5 records under limit 1/2/10, then grown; " } else { "" };
                 for t in &targets {
-                    self.check_record(cx, &st, &json!(format!("{} records '<random word> {}' plus {:?}, limit = N", n, dom, targets)), t, &mut done);
+                    self.check_record(cx, &st, &json!(format!("{}{} records '<random word> {}' plus {} ids titled {:?} plus {:?}, limit = N", how, n, dom, dups, dup_title, &targets[..5])), t, &mut done);
                 }
                 cx.count("catalogues of 4200-9000 records dominated by one word");
             }
